@@ -56,7 +56,7 @@ class Indicator(Base):
         )
 
         if self.accepts_multiple:
-            return {"_value_1": values}
+            return []
         return values
 
     @property
@@ -362,6 +362,8 @@ class Choice(OrderIndicator):
 
     @property
     def default_value(self):
+        if self.accepts_multiple:
+            return []
         return OrderedDict()
 
     def parse_xmlelements(self, xmlelements, schema, name=None, context=None):
